@@ -316,8 +316,8 @@ def hand_corpus():
     S("HOptStrBreakReq", chunked(field("a", "char"), brk(), field("note", "string", optional=True), brk(), field("z", "char")), rt=False)
     # round 6: two chunked sections in one object (also: a case with its own section after the parent's has closed);
     # an unnamed constant inside the element type of a length-less array (the element size decides the count)
-    S("HTwoChunks", chunked(field("a", "string"), brk(), field("b", "string")), field("mid", "char"), chunked(field("c", "string"), brk(), field("d", "string")))
-    S("HChunkThenCaseChunk", chunked(field("kind", "char"), brk(), field("a", "string")), switch("kind", "char", case(1, chunked(field("q", "string"), brk(), field("r", "string")))))
+    S("HTwoChunks", chunked(field("a", "string"), brk(), field("b", "string"), brk()), field("mid", "char"), chunked(field("c", "string"), brk(), field("d", "string")))
+    S("HChunkThenCaseChunk", chunked(field("kind", "char"), brk(), field("a", "string"), brk()), switch("kind", "char", case(1, chunked(field("q", "string"), brk(), field("r", "string")))))
     S("HHardElem", field("", "char", hard=7), field("x", "char"))
     S("HArrHardElem", field("n", "char"), array("es", "HHardElem"))
     # round 6: objects without instructions (the generated serialize() had an empty try block: fix f2d221e)
